@@ -2,6 +2,7 @@
 Model: lean/RedunModel/Model/ValueHash.lean.  Real code: TypeRegistry.get_hash in fresh interpreters."""
 import json
 import os
+import pickle
 import shutil
 import subprocess
 import sys
@@ -110,6 +111,7 @@ WORKER = os.path.join(os.path.dirname(os.path.abspath(__file__)), "_c16_worker.p
 INTS = [0, 1, 2, 3, 7, 8, 16, 24, 32, 64, -1, -2, 255, 256, 1024, 10 ** 12, -(10 ** 12), 2 ** 61 - 1, 2 ** 61, 2 ** 62]
 STRS = ["", "a", "b", "c", "d", "e", "f", "g", "h", "ab", "ba", "abc", "é", "日本", "z", "A", "key", "k1", "k2", "x y", "\x00"]
 BYTS = ["", "61", "62", "6162", "ff", "00", "c3a9"]
+FLOATS = [x.hex() for x in (0.0, -0.0, 1.0, 2.0, -1.0, 0.5, 1.5, 1000.0, 1e100, float(2 ** 62), float("inf"))]
 
 
 class Gen:
@@ -118,7 +120,9 @@ class Gen:
 
     def scalar(self, kind=None):
         r = self.r
-        k = kind or r.choice(["i", "i", "s", "s", "s", "b", "N", "T"])
+        k = kind or r.choice(["i", "i", "i", "s", "s", "s", "s", "b", "b", "N", "T", "f"])
+        if k == "f":
+            return ["f", r.choice(FLOATS)]
         if k == "i":
             return ["i", r.choice(INTS) if r.random() < 0.7 else r.randrange(-100, 100) * r.choice([1, 8])]
         if k == "s":
@@ -224,14 +228,14 @@ def permuted(sp, rng, mode):
 def features(sp, top=True, acc=None):
     """structural class of a specification (for finding signatures and the evidence distribution)"""
     if acc is None:
-        acc = dict(sets=0, nested_multi=False, top=sp[0], mixed_top=False, partial_top=False)
+        acc = dict(sets=0, nested_multi=False, top=sp[0], mixed_top=False, partial_top=False, extras=False)
     t = sp[0]
     if t in ("S", "FS"):
         acc["sets"] += 1
         if not (top and t == "S") and len(sp[1]) >= 2:
             acc["nested_multi"] = True
         if top and t == "S":
-            kinds = {("num" if x[0] in ("i", "T", "F") else x[0]) for x in sp[1]}
+            kinds = {("num" if x[0] in ("i", "T", "F", "f") else x[0]) for x in sp[1]}
             acc["mixed_top"] = len(kinds) > 1
             acc["partial_top"] = len(sp[1]) >= 2 and bool(kinds & {"FS", "U", "O"})
         for x in sp[1]:
@@ -244,6 +248,8 @@ def features(sp, top=True, acc=None):
             features(k, False, acc)
             features(v, False, acc)
     elif t == "O":
+        if sp[1] == "CP2":
+            acc["extras"] = True
         for x in sp[2]:
             features(x, False, acc)
     return acc
@@ -269,6 +275,52 @@ def i_(x):
     return ["i", x]
 
 
+def f_(x):
+    return ["f", float(x).hex()]
+
+
+def lookalike_family(rng):
+    """values that are `==` in Python but pickle differently: numbers written as int / float / bool inside (nested) tuples"""
+    def shape(depth):
+        if depth <= 0 or rng.random() < 0.5:
+            return rng.choice(["n", "n", "n", "s"])
+        return [shape(depth - 1) for _ in range(rng.choice([1, 2, 2, 3]))]
+
+    sh = [shape(2) for _ in range(rng.choice([1, 2, 2, 3]))]
+    nums = {}
+
+    def fill(t, path, style):
+        if t == "s":
+            return ["s", "chr%d" % (len(path) % 3)]
+        if t == "n":
+            n = nums.setdefault(path, rng.choice([0, 1, 1, 2, 3, 4, 1000, 2 ** 40]))
+            st = style if style != "mixed" else ("int" if hash_path(path) % 2 else "float")
+            if st == "bool" and n not in (0, 1):
+                st = "int"
+            return i_(n) if st == "int" else (f_(n) if st == "float" else (["T"] if n else ["F"]))
+        return ["U", [fill(x, path + (j,), style) for j, x in enumerate(t)]]
+
+    def hash_path(path):
+        return sum((j + 1) * (k + 3) for j, k in enumerate(path))
+
+    fam = []
+    for style in ("int", "float", "mixed", "bool"):
+        sp = fill(sh, (), style)
+        if sp not in fam:
+            fam.append(sp)
+    return fam
+
+
+FAMILIES = [
+    [["U", [i_(1), i_(2)]], ["U", [f_(1), f_(2)]], ["U", [["T"], i_(2)]]],
+    [["U", [s_("chr1"), i_(1000)]], ["U", [s_("chr1"), f_(1000)]]],
+    [["U", [s_("a"), ["U", [i_(3), ["U", [i_(4)]]]]]], ["U", [s_("a"), ["U", [f_(3), ["U", [f_(4)]]]]]]],
+    [f_(0.0), f_(-0.0)], [["U", [f_(0.0)]], ["U", [f_(-0.0)]], ["U", [i_(0)]], ["U", [["F"]]]],
+    [i_(1), f_(1), ["T"]], [i_(0), f_(0.0), ["F"], f_(-0.0)],
+    [["L", [i_(1), i_(2)]], ["L", [f_(1), f_(2)]]], [["D", [[i_(1), s_("v")]]], ["D", [[f_(1), s_("v")]]], ["D", [[["T"], s_("v")]]]],
+]
+
+
 LETTERS = [s_(c) for c in "abcdefgh"]
 # witnesses of the Lean `_refuted` theorems (with 8 elements instead of 2 where the order comes from hash randomisation, so
 # that the seeds of one run cannot all agree by chance) and look-alikes that must be stable
@@ -287,6 +339,7 @@ CORPUS = [
     S(["FS", LETTERS[:4]], i_(1)),                                 # ... but not when an element has several layouts
     S(["U", [i_(1), s_("a")]], ["U", [i_(2), s_("b")]], ["U", [i_(0), s_("c")]]),
     S(["FS", [s_("a")]], ["FS", [s_("b")]], ["FS", [s_("c")]], ["FS", [s_("d")]]),     # incomparable elements
+    ["O", "CP2", [i_(1)]], ["L", [["O", "CP2", [s_("x")]]]],      # dataclass instances with two non-field __dict__ entries
     ["O", "M2", [S(*LETTERS), i_(1)]], ["U", [["FS", LETTERS[:5]], ["FS", LETTERS[3:]]]],
     ["L", [s_("ab"), s_("ab")]], ["L", [i_(1), ["T"]]], ["U", [i_(1)]], ["L", [i_(1)]], ["D", [[s_("a"), i_(1)], [s_("b"), i_(2)]]],
     ["D", [[["U", [i_(1), s_("x")]], ["L", []]]]], s_("é"), ["b", "c3a9"], i_(2 ** 62), ["N"],
@@ -294,7 +347,7 @@ CORPUS = [
 
 
 # ------------------------------------------------------------------ fresh interpreters
-def run_workers(docs, seeds):
+def run_workers(docs, seeds, modes=None):
     """docs: list of (id, spec, sched).  returns {seed: {id: (layout, get_hash, get_hash(data=), record_value, arg, result)}}"""
     tmp = tempfile.mkdtemp(prefix="verif-c16-")
     try:
@@ -303,16 +356,17 @@ def run_workers(docs, seeds):
             for did, sp, sched in docs:
                 f.write(json.dumps({"id": did, "spec": sp, "sched": bool(sched)}) + "\n")
         procs = []
-        for sd in seeds:
+        modes = modes or ["fwd"] * len(seeds)
+        for sd, mode in zip(seeds, modes):
             env = dict(os.environ)
             env["PYTHONHASHSEED"] = str(sd)
             env["PYTHONPYCACHEPREFIX"] = os.path.join(tmp, "pyc")
             env.pop("PYTHONDONTWRITEBYTECODE", None)
             env.pop("PYTHONPATH", None)
-            procs.append((sd, subprocess.Popen([sys.executable, WORKER, core.REPO], stdin=open(inp), stdout=subprocess.PIPE,
+            procs.append((sd, mode, subprocess.Popen([sys.executable, WORKER, core.REPO, mode], stdin=open(inp), stdout=subprocess.PIPE,
                                                stderr=subprocess.PIPE, text=True, env=env, cwd=tmp)))
         res = {}
-        for sd, p in procs:
+        for sd, mode, p in procs:
             try:
                 out, err = p.communicate(timeout=400)
             except subprocess.TimeoutExpired:
@@ -327,8 +381,10 @@ def run_workers(docs, seeds):
                     if len(cols) != 7:
                         raise core.Infra("C16 worker: malformed reply " + line[:200])
                     table[cols[0]] = tuple(cols[1:])
-            if len(table) != len(docs):
-                raise core.Infra("C16 worker (PYTHONHASHSEED=%s): %d replies for %d docs" % (sd, len(table), len(docs)))
+            want = len(docs) if mode in ("fwd", "rev") else sum(
+                1 for d in docs if int(d[0].split(".")[0]) % 2 == (0 if mode.startswith("even") else 1))
+            if len(table) != want:
+                raise core.Infra("C16 worker (PYTHONHASHSEED=%s, %s): %d replies for %d docs" % (sd, mode, len(table), want))
             res[sd] = table
         return res
     finally:
@@ -346,18 +402,20 @@ OBSERVABLES = [     # (name, column in the worker row, model request, enters the
 ]
 
 
-def check_specs(ctx, specs, seeds, nvar, stream_of=None, nsched=0):
+def check_specs(ctx, specs, seeds, nvar, stream_of=None, nsched=0, families=(), modes=None):
     """specs: list of specifications.  Every spec x (base order, reversed, nvar-2 shuffles) x every seed is hashed for real;
     the first `nsched` specs additionally go through a real task call."""
     rng = ctx.rng
     docs = []
     for i, sp in enumerate(specs):
         docs.append(("%d.0" % i, sp, i < nsched))
+        if not features(sp)["sets"]:
+            continue                        # no set, no other insertion order
         if nvar > 1:
-            docs.append(("%d.1" % i, permuted(sp, rng, "reverse"), i < nsched))
+            docs.append(("%d.1" % i, permuted(sp, rng, "reverse"), i < min(nsched, len(WITNESSES) + len(CORPUS))))
         for j in range(2, nvar):
-            docs.append(("%d.%d" % (i, j), permuted(sp, rng, "shuffle"), i < nsched))
-    res = run_workers(docs, seeds)
+            docs.append(("%d.%d" % (i, j), permuted(sp, rng, "shuffle"), False))
+    res = run_workers(docs, seeds, modes)
     # ---- model on every distinct layout
     layouts = sorted({row[0] for t in res.values() for row in t.values()})
     if "!layout-changed" in layouts:
@@ -394,6 +452,7 @@ def check_specs(ctx, specs, seeds, nvar, stream_of=None, nsched=0):
     ctx.count("model", "unspecified(top-level set of partially ordered elements)", nunspec)
     # ---- oracle: one value, one hash - for every way the hash of an argument / result is obtained
     verdicts = []
+    fam_of = {i: [specs[k] for k in fam] for fam in families for i in fam}
     for i, sp in enumerate(specs):
         runs = [(sd, did, res[sd][did]) for sd in seeds for did in ("%d.%d" % (i, j) for j in range(nvar)) if did in res[sd]]
         nlay = len({row[0] for _, _, row in runs})
@@ -402,8 +461,9 @@ def check_specs(ctx, specs, seeds, nvar, stream_of=None, nsched=0):
         stream = stream_of(i) if stream_of else "generated"
         sens_any = False
         for oname, col, req, inbij in OBSERVABLES:
-            hashes = sorted({row[col] for _, _, row in runs})
-            if hashes == ["-"]:
+            oruns = [r for r in runs if r[2][col] != "-"]
+            hashes = sorted({row[col] for _, _, row in oruns})
+            if not hashes:
                 continue
             sensitive = len(hashes) > 1
             if col == 1:
@@ -418,21 +478,63 @@ def check_specs(ctx, specs, seeds, nvar, stream_of=None, nsched=0):
                 sens_any = sensitive
             if not sensitive:
                 continue
-            a = runs[0]
-            b = next(r for r in runs if r[2][col] != a[2][col])
-            pres = {replies[req][row[0]] for _, _, row in runs}
+            a = oruns[0]
+            b = next(r for r in oruns if r[2][col] != a[2][col])
+            pres = {replies[req][row[0]] for _, _, row in oruns}
             sig = signature(ft)
-            if len(pres) == 1 and "unspecified" not in pres:
+            if ft["extras"] and not ft["nested_multi"] and col in (4, 5):
+                # map_nested_value (applied by the scheduler to arguments and results) copies the non-field __dict__ entries
+                # of a dataclass instance in set-iteration order
+                sig = "C16-dataclass-extra-attrs-copied-in-set-order"
+            elif len(pres) == 1 and "unspecified" not in pres:
                 # the model (= the code as it was when the finding was recorded) gives ONE pre-image for all these runs:
                 # this instability is not the recorded one
                 sig = "C16-unstable-where-model-is-stable:" + ("top-level-set" if ft["top"] == "S" else
                                                                ("set-free" if not ft["sets"] else "nested-set"))
             ctx.violation(sig, "%s differs between runs of the same value (PYTHONHASHSEED=%s vs %s)" % (oname, a[0], b[0]),
-                          case={"spec": sp, "observable": oname,
+                          case={"spec": sp, "observable": oname, "family": fam_of.get(i),
                                 "run_a": {"seed": a[0], "layout": a[2][0][:300], "hash": a[2][col]},
                                 "run_b": {"seed": b[0], "layout": b[2][0][:300], "hash": b[2][col]}},
-                          expected="one hash in all %d runs" % len(runs), actual=hashes[:6], kind="input")
+                          expected="one hash in all %d runs" % len(oruns), actual=hashes[:6], kind="input")
         verdicts.append(sens_any)
+        # ---- the ways of obtaining the hash agree inside one process
+        for sd, did, row in runs:
+            same_obj = {row[c] for c in (1, 2, 3)}
+            # the scheduler rebuilds containers (map_nested_value): its two hashes belong to another layout of the value and
+            # are compared only where the layout cannot matter (no nested multi-element set, model not `unspecified`)
+            comparable = not ft["nested_multi"] and not ft["extras"] and replies["record"][row[0]] != "unspecified"
+            routes = same_obj | ({row[4], row[5]} - {"-"} if comparable else set())
+            if len(routes) > 1:
+                ctx.violation("C16-hash-routes-disagree", "one value, one process, different hashes depending on how the hash is obtained",
+                              case={"spec": sp, "seed": sd, "layout": row[0][:300], "family": fam_of.get(i),
+                                    "hashes": {o[0]: row[o[1]] for o in OBSERVABLES if row[o[1]] != "-"}},
+                              expected="one hash", actual=sorted(routes))
+                break
+    # ---- look-alikes: `==` in Python, different pickle => different hash, in every process whatever it hashed before
+    for fam in families:
+        pk = {}
+        for i in fam:
+            try:
+                pk[i] = pickle.dumps(W.build(specs[i]), protocol=3)
+            except Exception:  # noqa: BLE001
+                pass
+        done = False
+        for a in fam:
+            for b in fam:
+                if done or a >= b or a not in pk or b not in pk or pk[a] == pk[b]:
+                    continue
+                for sd in seeds:
+                    ra, rb = res[sd].get("%d.0" % a), res[sd].get("%d.0" % b)
+                    if ra is None or rb is None:
+                        continue
+                    clash = [o[0] for o in OBSERVABLES if ra[o[1]] == rb[o[1]] and ra[o[1]] != "-" and not ra[o[1]].startswith("!")]
+                    if clash:
+                        ctx.violation("C16-distinct-values-same-hash", "two values with different pickles got the same hash (%s)" % clash[0],
+                                      case={"spec": specs[a], "other": specs[b], "seed": sd, "hash": ra[1], "other_hash": rb[1]},
+                                      expected="different hashes", actual=ra[1])
+                        done = True
+                        break
+        ctx.count("lookalike_family_size", len(fam))
     return verdicts
 
 
@@ -441,15 +543,30 @@ def seeds_for(ctx):
     return [0, 1, 2, 3] + extra
 
 
+def modes_for(seeds):
+    """the history of each interpreter: order in which it meets the values / which half of them it meets at all"""
+    cyc = ["fwd", "rev", "fwd", "rev", "even", "odd", "evenrev", "oddrev", "fwd", "rev", "even", "odd"]
+    return [cyc[i % len(cyc)] for i in range(len(seeds))]
+
+
 def run(ctx):
     g = Gen(ctx.rng)
     specs = [w[1] for w in WITNESSES] + list(CORPUS)
+    families = []
+    for fam in FAMILIES + [lookalike_family(ctx.rng) for _ in range(ctx.n(40, 400))]:
+        if len(specs) % 2:                  # a family starts on an even index: neighbours land in different halves
+            specs.append(["N"])
+        families.append(list(range(len(specs), len(specs) + len(fam))))
+        specs.extend(fam)
+        if len(families) == len(FAMILIES):
+            nfix = len(specs)
     ncorp = len(specs)
     for _ in range(ctx.n(700, 9000)):
         specs.append(g.value(ctx.rng.choice([1, 2, 2, 3, 4])))
-    verdicts = check_specs(ctx, specs, seeds_for(ctx), 3 if ctx.tier == "quick" else 4,
-                           stream_of=lambda i: "witness" if i < len(WITNESSES) else ("corpus" if i < ncorp else "generated"),
-                           nsched=ncorp + ctx.n(25, 150))
+    seeds = seeds_for(ctx)
+    verdicts = check_specs(ctx, specs, seeds, 3 if ctx.tier == "quick" else 4,
+                           stream_of=lambda i: "witness" if i < len(WITNESSES) else ("corpus+lookalikes" if i < ncorp else "generated"),
+                           nsched=nfix + ctx.n(10, 150), families=families, modes=modes_for(seeds))
     # the `_refuted` witnesses must still fail on the implementation (else the model is stale)
     for (name, sp, sig), sens in zip(WITNESSES, verdicts):
         if not sens:
@@ -461,6 +578,8 @@ def replay(ctx, case):
     c = case.get("case")
     if isinstance(c, dict) and "spec" in c:
         print("replaying specification:", json.dumps(c["spec"])[:300])
-        check_specs(ctx, [c["spec"]], seeds_for(ctx), 4, nsched=1)
+        specs = list(c["family"]) if c.get("family") else [c["spec"]] + ([c["other"]] if "other" in c else [])
+        seeds = seeds_for(ctx)
+        check_specs(ctx, specs, seeds, 4, nsched=len(specs), families=[list(range(len(specs)))], modes=modes_for(seeds))
     else:
         run(ctx)
